@@ -463,6 +463,17 @@ fn is_real_svg(events: &InputList) -> bool {
     false
 }
 
+/// The text following an element. Formatting whitespace belongs to the element: one that
+/// renders nothing (`<var>`, a false `<if>`, ...) takes its line with it. Any other character
+/// data is the author's and is always kept.
+fn push_tail(events: &mut OutputList, tail: &Option<String>) {
+    if let Some(tail) = tail {
+        if !events.is_empty() || !tail.trim().is_empty() {
+            events.push(OutputEvent::Text(tail.to_owned()));
+        }
+    }
+}
+
 impl EventGen for Tag {
     fn generate_events(
         &self,
@@ -474,9 +485,7 @@ impl EventGen for Tag {
             Tag::Compound(el, tail) => {
                 let (ev, bb) = el.generate_events(context)?;
                 (events, bbox) = (ev, bb);
-                if let (Some(tail), false) = (tail, events.is_empty()) {
-                    events.push(OutputEvent::Text(tail.to_owned()));
-                }
+                push_tail(&mut events, tail);
                 // NOTE: el.content_bbox may be set (e.g. if symbol) while bb is None here.
             }
             Tag::Leaf(el, tail) => {
@@ -491,9 +500,7 @@ impl EventGen for Tag {
                 }
                 let (ev, bb) = el.generate_events(context)?;
                 (events, bbox) = (ev, bb);
-                if let (Some(tail), false) = (tail, events.is_empty()) {
-                    events.push(OutputEvent::Text(tail.to_owned()));
-                }
+                push_tail(&mut events, tail);
             }
             Tag::Comment(c, tail) => {
                 events.push(OutputEvent::Comment(c.clone()));
